@@ -27,6 +27,32 @@ theorem tfold_sem (tm : List Rng) (htm : Canon tm) (a : STMoc) (ha : ∀ e ∈ a
 theorem sfold_sem (sm : List Rng) (hsm : Canon sm) (a : STMoc) (ha : ∀ e ∈ a, Canon e.2) (t : Nat) :
     sfoldB sm a t = true ↔ ∃ e ∈ a, mem t e.1 ∧ e.2 ≠ [] ∧ ∀ y, mem y e.2 → mem y sm := sfoldB_iff sm hsm a ha t
 
+/-- **Time fold as computed** (`project_on_second_dim`: filter the entries whose time range meets `T`, reduce
+    their space coverages with `union`): the ranges returned are canonical and cover exactly the positions
+    covered by an entry whose time range contains an instant of `T`. -/
+theorem tfold_ranges (x : List Rng) (hx : Canon x) (flat : FlatST)
+    (hf : ∀ e ∈ flat, e.1.1 < e.1.2 ∧ Canon e.2) :
+    Canon (tfoldRanges x flat) ∧
+    ∀ p, mem p (tfoldRanges x flat) ↔ ∃ e ∈ flat, (∃ t, e.1.1 ≤ t ∧ t < e.1.2 ∧ mem t x) ∧ mem p e.2 :=
+  tfoldRanges_spec x hx flat hf
+
+/-- The reduction is parallel (rayon): the result does not depend on the order in which the entries are
+    combined. -/
+theorem tfold_ranges_order_independent (x : List Rng) (hx : Canon x) (flat flat' : FlatST) (hp : flat.Perm flat')
+    (hf : ∀ e ∈ flat, e.1.1 < e.1.2 ∧ Canon e.2) : tfoldRanges x flat = tfoldRanges x flat' :=
+  tfoldRanges_perm x hx flat flat' hp hf
+
+/-- **Space fold as computed** (`project_on_first_dim`: keep the time ranges of the entries whose space
+    coverage lies inside `S`, `new_from_sorted`): canonical, and covers exactly the instants of those entries. -/
+theorem sfold_ranges (y : List Rng) (hy : Canon y) (flat : FlatST) (hs : FlatSorted 0 flat)
+    (hf : ∀ e ∈ flat, Canon e.2) :
+    Canon (sfoldRanges y flat) ∧
+    ∀ t, mem t (sfoldRanges y flat) ↔ ∃ e ∈ flat, (e.1.1 ≤ t ∧ t < e.1.2) ∧ ∀ p, mem p e.2 → mem p y :=
+  sfoldRanges_spec y hy flat hs hf
+
+example : FlatSorted 0 [((0, 5), [(0, 2)]), ((5, 10), [(4, 6)])] ∧ Canon [(0, 2)] ∧ Canon [(4, 6)] := by
+  simp [FlatSorted, Canon, CanonFrom]
+
 /-- **Lookup** with half-open time ranges: true exactly for covered pairs (total by construction). -/
 theorem lookup_sem (t s : Nat) (a : STMoc) : memSTB t s a = true ↔ memST t s a := memSTB_iff t s a
 
